@@ -997,7 +997,7 @@ Lemma transfer_grows : forall fuel fx libs orphan u s s' m c n,
   transfer fuel fx libs orphan u s = FOk (s', m, c, n) -> grows (us_T s) (us_T s').
 Proof.
   induction fuel as [|f IH]; intros fx libs orphan u s s' m c n H; cbn [transfer] in H; [discriminate|].
-  destruct (models_equivalent_units libs (us_T s) (if orphan then [u] else us_S s) (u_name u) (us_T s)) as [tg| | |];
+  destruct (models_equivalent_units libs (us_T s) (transfer_home orphan u s) (transfer_qname orphan u) (us_T s)) as [tg| | |];
     cbn [fbind] in H; try discriminate.
   destruct tg as [tname|].
   - destruct (String.eqb tname (u_name u)); inversion H; subst; [apply grows_refl | rewrite us_op_T; apply grows_refl].
@@ -1015,21 +1015,22 @@ Qed.
    has, which is its own name unless that is taken (then name_k); changedNames records the renaming *)
 Theorem transfer_reuse_or_fresh : forall fuel fx libs orphan u s s' moved changed fname,
   transfer fuel fx libs orphan u s = FOk (s', moved, changed, fname) ->
-  let home := if orphan then [u] else us_S s in
+  let home := transfer_home orphan u s in
+  let q := transfer_qname orphan u in
   (moved = false /\ us_T s' = us_T s /\ us_S s' = us_S s /\ fname = u_name u /\
-   exists t, In t (us_T s) /\ units_equivalent libs [us_T s; home] 0 (u_name t) 1 (u_name u) = FOk true /\
+   exists t, In t (us_T s) /\ units_equivalent libs [us_T s; home] 0 (u_name t) 1 q = FOk true /\
      ((u_name t = u_name u /\ changed = []) \/ (u_name t <> u_name u /\ changed = [(u_name u, u_name t)])))
   \/
   (moved = true /\
-   (forall t, In t (us_T s) -> units_equivalent libs [us_T s; home] 0 (u_name t) 1 (u_name u) = FOk false) /\
+   (forall t, In t (us_T s) -> units_equivalent libs [us_T s; home] 0 (u_name t) 1 q = FOk false) /\
    exists T1 u', grows (us_T s) T1 /\ us_T s' = T1 ++ [u'] /\ u_name u' = fname /\ u_imp u' = u_imp u /\
      ~ In fname (map u_name T1) /\
      ((fname = u_name u /\ changed = []) \/
       (fname <> u_name u /\ In (u_name u) (map u_name T1) /\ changed = [(u_name u, fname)] /\ exists k, fname = candidate (u_name u) k))).
 Proof.
-  intros [|f] fx libs orphan u s s' moved changed fname H home; cbn [transfer] in H; [discriminate|].
-  fold home in H.
-  destruct (models_equivalent_units libs (us_T s) home (u_name u) (us_T s)) as [tg| | |] eqn:Em; cbn [fbind] in H; try discriminate.
+  intros [|f] fx libs orphan u s s' moved changed fname H home q; cbn [transfer] in H; [discriminate|].
+  fold home in H. fold q in H.
+  destruct (models_equivalent_units libs (us_T s) home q (us_T s)) as [tg| | |] eqn:Em; cbn [fbind] in H; try discriminate.
   destruct tg as [tname|].
   - left. destruct (meu_some _ _ _ _ _ _ Em) as [t [Hin [Hn He]]]. subst tname.
     destruct (String.eqb (u_name t) (u_name u)) eqn:En; inversion H; subst.
@@ -1245,19 +1246,24 @@ Theorem transfer_preserves_meaning_partial : forall fuel fx libs orphan u s s' m
   transfer fuel fx libs orphan u s = FOk (s', moved, changed, fname) ->
   u_imp u = None -> std_only (u_defs u) ->
   (orphan = false -> find_units (u_name u) (us_S s) = Some u) ->
-  let home := if orphan then [u] else us_S s in
+  let home := transfer_home orphan u s in
+  let q := transfer_qname orphan u in
   let usage_name := match changed with [(_, n)] => n | _ => u_name u end in
-  units_equivalent libs [us_T s'; home] 0 usage_name 1 (u_name u) = FOk true.
+  units_equivalent libs [us_T s'; home] 0 usage_name 1 q = FOk true.
 Proof.
-  intros fuel fx libs orphan u s s' moved changed fname H Himp Hstd Hhome home usage_name.
-  assert (Hh : find_units (u_name u) home = Some u).
-  { unfold home. destruct orphan; [cbn; rewrite String.eqb_refl; reflexivity | apply Hhome; reflexivity]. }
+  intros fuel fx libs orphan u s s' moved changed fname H Himp Hstd Hhome home q usage_name.
+  assert (Hh : exists hu, find_units q home = Some hu /\ u_defs hu = u_defs u /\ u_imp hu = u_imp u).
+  { unfold home, q, transfer_home, transfer_qname. destruct orphan.
+    - exists (orphan_home u). cbn [find_units]. rewrite String.eqb_refl. split; [reflexivity|].
+      unfold orphan_home. destruct (u_defs u) eqn:Ed; cbn; rewrite ?Ed; split; reflexivity.
+    - exists u. split; [apply Hhome; reflexivity | split; reflexivity]. }
+  destruct Hh as [hu [Hh [Hhd Hhi]]].
   destruct (transfer_reuse_or_fresh _ _ _ _ _ _ _ _ _ _ H) as [[Hm [HT [_ [_ [t [Hin [He Hc]]]]]]]|[Hm [_ _]]].
-  - fold home in He. rewrite HT. unfold usage_name.
+  - fold home in He. fold q in He. rewrite HT. unfold usage_name.
     destruct Hc as [[En Ec]|[En Ec]]; rewrite Ec; [rewrite <- En at 1|]; exact He.
   - (* added: redo the computation, the children loop does nothing *)
-    destruct fuel as [|f]; cbn [transfer] in H; [discriminate|]. fold home in H.
-    destruct (models_equivalent_units libs (us_T s) home (u_name u) (us_T s)) as [tg| | |]; cbn [fbind] in H; try discriminate.
+    destruct fuel as [|f]; cbn [transfer] in H; [discriminate|]. fold home in H. fold q in H.
+    destruct (models_equivalent_units libs (us_T s) home q (us_T s)) as [tg| | |]; cbn [fbind] in H; try discriminate.
     destruct tg as [tname|]; [destruct (String.eqb tname (u_name u)); inversion H; subst; discriminate|].
     rewrite transfer_kids_std in H by (intros c Hc; apply (proj2 Hstd c Hc)). cbn [fbind] in H.
     destruct (free_name (map u_name (us_T s)) (u_name u)) as [newname|] eqn:Ef; [|discriminate].
@@ -1274,10 +1280,10 @@ Proof.
       - unfold env_of. destruct (us_T s); discriminate.
       - unfold env_of. destruct home; [discriminate | discriminate]. }
     destruct Hf as [f' Hf]. rewrite Hf.
-    rewrite (std_only_equivalent _ f' w 0 newname 1 (u_name u) (u_defs u)); [reflexivity| | |exact Hstd].
+    rewrite (std_only_equivalent _ f' w 0 newname 1 q (u_defs u)); [reflexivity| | |exact Hstd].
     + unfold lookup, w, mk_world. cbn [map app nth_error]. rewrite assoc_env_of.
       rewrite (find_units_app_new newname (us_T s) (u_set_name newname u) Hfree eq_refl). cbn. rewrite Himp. reflexivity.
-    + unfold lookup, w, mk_world. cbn [map app nth_error]. rewrite assoc_env_of, Hh, Himp. reflexivity.
+    + unfold lookup, w, mk_world. cbn [map app nth_error]. rewrite assoc_env_of, Hh, Hhi, Himp, Hhd. reflexivity.
 Qed.
 
 (* ================================================================================== the units claim at full strength is false *)
